@@ -8,6 +8,7 @@ import ClarabelProofs.Lemmas.ConesPsd
 import ClarabelProofs.Lemmas.ConesPsdScaling
 import ClarabelProofs.Lemmas.ConesSocConverse
 import ClarabelProofs.Lemmas.ConesIdentityScaling
+import ClarabelProofs.Lemmas.ConesPsdUpdate
 
 namespace Clarabel.C13
 open Clarabel
@@ -689,5 +690,72 @@ example : Soc.SameShape
   ⟨rfl, rfl, rfl⟩
 
 end IdentityScaling
+
+/-! ## round 5: PSD `update_scaling` as a whole — the LAPACK failure paths -/
+section PsdUpdate
+open PsdTri
+variable {α : Type} [Add α] [Mul α] [Sub α] [Div α] [Neg α] [OfNat α 0] [OfNat α 1] [LT α]
+  [DecidableLT α] [FloatLike α]
+
+set_option linter.unusedSectionVars false
+
+/-- [S] **PSD `update_scaling`, failure paths.**  The LAPACK results are a parameter
+(`LapackOut`: for each of `chol1.factor(S)`, `chol2.factor(Z)`, `SVD.factor(L₂ᵀL₁)` either the
+result or `none` = the call returned `Err`).  For a non-empty cone and svec-sized `s`, `z`: if the
+Cholesky factorization of `S` **or** of `Z` **or** the SVD is reported as failed, the model of
+`update_scaling` returns `is_scaling_success = false` and the scaling state `λ, Λisqrt, R, R⁻¹, Hs`
+is **the one it started from** (every write to it comes after the last LAPACK call) — whatever
+the other two calls returned.  Holds at `Float`.  (The solver then ends the solve with
+`NumericalError`: C04's loop skeleton, `scaling_success = false`.) -/
+theorem psd_update_scaling_failure (K : Cone α) (s z : Array α) (lap : LapackOut α)
+    (hs : s.isEmpty = false) (hsz : SvecSized K s z)
+    (hf : lap.chol1 = none ∨ lap.chol2 = none ∨ lap.svd = none) :
+    updateScaling K s z lap = .ok (false, K) :=
+  updateScaling_failed K s z lap hs hsz hf
+
+/-- [S] **PSD `update_scaling`, the verdict.**  For svec-sized inputs: an empty cone returns
+`true` untouched; with all three LAPACK results present the update is `assembleScaling` of them
+(the function `psd_assemble_spec` / `psd_assemble_nt` are about) with flag `true`; and whenever a
+result `(ok, K')` is returned, `ok = false` **iff** the cone is non-empty and some LAPACK call
+failed. -/
+theorem psd_update_scaling_verdict (K : Cone α) (s z : Array α) (lap : LapackOut α)
+    (hsz : SvecSized K s z) :
+    (s.isEmpty = true → updateScaling K s z lap = .ok (true, K)) ∧
+    (s.isEmpty = false → ∀ L1 L2 U Vt sig, lap = ⟨some L1, some L2, some (U, Vt, sig)⟩ →
+      updateScaling K s z lap = (assembleScaling K.n L1 L2 U Vt sig).map (fun r => (true, r.1))) ∧
+    (∀ ok K', updateScaling K s z lap = .ok (ok, K') →
+      (ok = false ↔ (s.isEmpty = false ∧ (lap.chol1 = none ∨ lap.chol2 = none ∨ lap.svd = none)))) :=
+  ⟨updateScaling_empty K s z lap,
+   fun hs L1 L2 U Vt sig hl => by subst hl; exact updateScaling_success K s z L1 L2 U Vt sig hs hsz,
+   fun ok K' h => updateScaling_false_iff K K' s z lap hsz ok h⟩
+
+/-- [S] **No panic, whatever LAPACK reports** (the C04 fix /repo e0ffbac, cone side): no input and
+no combination of LAPACK outcomes makes the model of `update_scaling` return `.panic`; whereas the
+code before the fix (`updateScalingOld`: `f.SVD.factor(tmp).expect("SVD error")`) panicked exactly
+when both Cholesky factorizations succeeded and the SVD failed — reachable after a numerical
+breakdown (non-finite factors) — and agreed with the fixed code on every other outcome. -/
+theorem psd_update_scaling_no_panic (K : Cone α) (s z : Array α) (lap : LapackOut α) :
+    (∀ site, updateScaling K s z lap ≠ .error (.panic site)) ∧
+    (s.isEmpty = false → SvecSized K s z → ∀ L1 L2, lap = ⟨some L1, some L2, none⟩ →
+      updateScalingOld K s z lap = .error (.panic "SVD error")) ∧
+    ((¬ ∃ L1 L2, lap.chol1 = some L1 ∧ lap.chol2 = some L2 ∧ lap.svd = none) →
+      updateScalingOld K s z lap = updateScaling K s z lap) :=
+  ⟨updateScaling_noPanic K s z lap,
+   fun hs hsz L1 L2 hl => by subst hl; exact updateScalingOld_panics K s z L1 L2 hs hsz,
+   updateScalingOld_eq K s z lap⟩
+
+/-- non-vacuity (the hypotheses are about sizes and options only, so any scalar type and any
+entry `a` will do): a 1×1 cone, `s = z = (a)`, the Cholesky of `Z` reported as failed -/
+example (K : Cone α) (hn : K.n = 1) (a : α) :
+    updateScaling K #[a] #[a] ⟨some #[a], none, none⟩ = .ok (false, K) :=
+  psd_update_scaling_failure K #[a] #[a] _ rfl
+    ⟨by rw [hn]; rfl, by rw [hn]; rfl⟩ (Or.inr (Or.inl rfl))
+
+/-- … and the pre-fix code on "both Cholesky factors, no SVD" -/
+example (K : Cone α) (hn : K.n = 1) (a : α) :
+    updateScalingOld K #[a] #[a] ⟨some #[a], some #[a], none⟩ = .error (.panic "SVD error") :=
+  (psd_update_scaling_no_panic K #[a] #[a] _).2.1 rfl ⟨by rw [hn]; rfl, by rw [hn]; rfl⟩ _ _ rfl
+
+end PsdUpdate
 
 end Clarabel.C13
